@@ -33,6 +33,7 @@ META = {
     "required_counters": ["tls_cases", "accept_expected", "reject_expected", "server_records_checked"],
     "assumptions": ["loopback TCP and the openssl CLI are available in the sandbox"],
 }
+META["claim"] += " " + "Also: URL host and server_hostname as IP literals, a certificate with a DNS-only SAN, the ssl_version option, and the CA-bundle environment variable combined with the caller's own ca_certs / ca_cert_path."
 
 OPENSSL = shutil.which("openssl")
 
